@@ -149,8 +149,15 @@ def run_case(desc):
         at, tol, dim = c.at, sc.TOL, "3D"
         out.cls("3D")
 
+    from vlib.case import dhash
+    pre = int(dhash(desc), 16) % 3      # a third of the cases each: fresh / material id first / parameter-less sets first
+
     def analyse():
         an = SymmetryAnalyzer(at, symmetry_tol=tol)
+        if pre == 1:
+            an.get_material_id()
+        elif pre == 2:
+            an.get_wyckoff_sets_conventional(False)
         conv = an.get_conventional_system()
         return an, conv, an.get_wyckoff_sets_conventional(True), an.get_has_free_wyckoff_parameters()
     ok, r = call(analyse)
@@ -166,5 +173,5 @@ def run_case(desc):
     if bool(hasfree) != bool(anyfree):
         out.fail("has-free-flag", "get_has_free_wyckoff_parameters() = %r but %s occupied set carries a parameter" % (hasfree, "some" if anyfree else "no"))
     out.nontrivial = bool(anyfree)
-    out.cls("free" if anyfree else "no-free")
+    out.cls("free" if anyfree else "no-free", ["history:fresh", "history:material-id-first", "history:plain-sets-first"][pre])
     return out
